@@ -155,7 +155,7 @@ def run_case(case, R):
     R.check('c12.df_monotone_x', bool(np.all(np.diff(dft) > 0)), dict(mech, method='tangent'), T=T, x=xgrid, DF=dft)
     # dilute end, down to exactly zero (what a precipitation model passes after its documented clamp of a negative matrix
     # composition), asked one by one on the long-lived object: negative, never decreasing with x, increasing above the solver's
-    # composition resolution. Added after a run recorded +55 kJ/mol for pure aluminium (repaired in /repo 617a0a3).
+    # composition resolution. Added after a run recorded +55 kJ/mol for pure aluminium (repaired in /repo a2fb3ae).
     xd = np.array([0.0, 1e-14, 1e-13, 5e-13, 1e-12, 1e-11, 1e-10, 1e-8, 1e-6])
     for method in ('tangent', 'approximate', 'sampling', 'curvature'):
         thm = _therm(method)
